@@ -14,8 +14,8 @@ use dryoc::sign::{SignedMessage, SigningKeyPair};
 use dryoc::types::*;
 use serde::de::value::{BytesDeserializer, Error as VErr, SeqDeserializer};
 use serde::de::DeserializeOwned;
-use serde::{Deserialize, Serialize};
-use serde_json::{json, Value};
+use serde::Serialize;
+use serde_json::json;
 use std::panic::AssertUnwindSafe;
 
 type SB<const N: usize> = StackByteArray<N>;
